@@ -272,6 +272,107 @@ class World:
         scale = max(abs(v), abs(w), 1e-300)
         return int(min(abs(v - w) / scale * 1e12, 2 ** 30))
 
+    # ---- C11: views, totals, unit conversions --------------------------------------------------------------
+    # independent table of conversion factors from the base units (kmol/hr, kg/hr, m3/hr)
+    UNITS = {
+        'kmol/hr': ('mol', 1.), 'mol/s': ('mol', 1000. / 3600.), 'mol/min': ('mol', 1000. / 60.), 'lbmol/hr': ('mol', 2.2046226218487757),
+        'kg/hr': ('mass', 1.), 'lb/hr': ('mass', 2.2046226218487757), 'g/min': ('mass', 1000. / 60.), 'kg/s': ('mass', 1. / 3600.),
+        'tonne/day': ('mass', 24. / 1000.),
+        'm3/hr': ('vol', 1.), 'L/min': ('vol', 1000. / 60.), 'gal/min': ('vol', 264.17205235814845 / 60.), 'm3/s': ('vol', 1. / 3600.),
+    }
+    BADUNITS = ['K', 'kg', 'm', 'Pa', 'kmol', 'hr', 'm3', 'kJ/hr']
+
+    def _factor(self, x, view, p, chem):
+        """What one kmol/hr of `chem` in phase p of stream x is worth in the base unit of `view`
+        (evaluated from the chemical's own models at the stream's CURRENT T, P and phase)."""
+        ch = x.chemicals[chem]
+        if view == 'mol':
+            return 1.
+        if view == 'mass':
+            return float(ch.MW)
+        return 1000. * float(ch.V(p, x.T, x.P))
+
+    def _rel(self, got, want):
+        try:
+            got = float(got)
+        except Exception:
+            return 2 ** 30
+        if got != got or want != want:
+            return 0 if (got != got and want != want) else 2 ** 30
+        scale = max(abs(got), abs(want), 1e-300)
+        return int(min(abs(got - want) / scale * 1e12, 2 ** 30))
+
+    def _indexer(self, x, view):
+        return {'mol': x.imol, 'mass': x.imass, 'vol': x.ivol}[view]
+
+    def _key(self, x, p, chem):
+        return (p, chem) if isinstance(x, tmo.MultiStream) else chem
+
+    def _rows(self, x):
+        if isinstance(x, tmo.MultiStream):
+            return [(p, x.imol.data.rows[x.imol.get_phase_index(p)].to_array()) for p in x.phases]
+        return [(x.phase, x.imol.data.to_array())]
+
+    def _total(self, x, view):
+        tot = 0.
+        for p, arr in self._rows(x):
+            for ID, n in zip(x.chemicals.IDs, arr):
+                if n:
+                    tot += n * self._factor(x, view, p, ID)
+        return tot
+
+    def view_ops(self, op, a):
+        x = self.s[a['x']]
+        if op == 'vget':
+            chem = UNIVERSAL[a['c'] - 1]
+            n = float(x.imol[self._key(x, a['p'], chem)])
+            try:
+                want = n * self._factor(x, a['view'], a['p'], chem)
+            except Exception:
+                return dict(diff=0, note='no model')
+            how = a.get('how', 'indexer')
+            if how == 'array' and not isinstance(x, tmo.MultiStream):
+                got = {'mass': x.mass, 'vol': x.vol, 'mol': x.mol}[a['view']][x.chemicals.index(chem)]
+            else:
+                got = self._indexer(x, a['view'])[self._key(x, a['p'], chem)]
+            return dict(diff=self._rel(got, want))
+        if op == 'vset':
+            chem = UNIVERSAL[a['c'] - 1]
+            f = self._factor(x, a['view'], a['p'], chem)
+            self._indexer(x, a['view'])[self._key(x, a['p'], chem)] = a['v'] * f
+            return {}
+        if op == 'tget':
+            view = {'F_mol': 'mol', 'F_mass': 'mass', 'F_vol': 'vol'}[a['which']]
+            try:
+                want = self._total(x, view)
+            except Exception:
+                return dict(diff=0, note='no model')
+            return dict(diff=self._rel(getattr(x, a['which']), want))
+        if op == 'tset':
+            cur = getattr(x, a['which'])
+            setattr(x, a['which'], cur * a['q'][0] / a['q'][1])
+            return {}
+        if op == 'uget':
+            chem = UNIVERSAL[a['c'] - 1]
+            view, conv = self.UNITS[a['units']]
+            n = float(x.imol[self._key(x, a['p'], chem)])
+            try:
+                want = n * self._factor(x, view, a['p'], chem) * conv
+            except Exception:
+                return dict(diff=0, note='no model')
+            got = x.get_flow(a['units'], self._key(x, a['p'], chem))
+            return dict(diff=self._rel(got, want))
+        if op == 'uset':
+            chem = UNIVERSAL[a['c'] - 1]
+            view, conv = self.UNITS[a['units']]
+            f = self._factor(x, view, a['p'], chem)
+            x.set_flow(a['v'] * f * conv, a['units'], self._key(x, a['p'], chem))
+            return {}
+        if op == 'ubad':
+            x.get_flow(a['units'], ...)
+            return {}
+        raise KeyError(op)
+
     # ---- operations ---------------------------------------------------------------------------------------
     def apply(self, op, a):
         exc = NONE
@@ -374,6 +475,8 @@ class World:
             S[a['d']].link_with(S[a['x']], flow=a['flow'], phase=a['phase'], TP=a['TP'])
         elif op == 'unlink':
             S[a['x']].unlink()
+        elif op in ('vget', 'vset', 'tget', 'tset', 'uget', 'uset', 'ubad'):
+            return self.view_ops(op, a)
         elif op == 'reset_thermo':
             S[a['x']]._reset_thermo(thermo(a['pkg']))
         elif op == 'read':
@@ -451,6 +554,22 @@ def random_op(universe, rng, st, ops):
         return op, dict(x=x, p=rng.choice(st['st'][x]['ph']))
     if op in ('copy', 'pickle', 'copy_like', 'proxy', 'flow_proxy'):
         return op, dict(d=x, x=y)
+    if op in ('vget', 'vset', 'uget', 'uset'):
+        a = dict(x=x, p=rng.choice(st['st'][x]['ph']), c=rng.randint(1, nc))
+        if op in ('vget', 'vset'):
+            a['view'] = rng.choice(['mass', 'vol', 'vol', 'mol'])
+            a['how'] = rng.choice(['indexer', 'array'])
+        else:
+            a['units'] = rng.choice(sorted(World.UNITS))
+        if op in ('vset', 'uset'):
+            a['v'] = 4 * rng.randint(0, 6)
+        return op, a
+    if op == 'tget':
+        return op, dict(x=x, which=rng.choice(['F_mol', 'F_mass', 'F_vol']))
+    if op == 'tset':
+        return op, dict(x=x, which=rng.choice(['F_mol', 'F_mass', 'F_vol']), q=rng.choice([[2, 1], [1, 2], [3, 1], [1, 4], [1, 1]]))
+    if op == 'ubad':
+        return op, dict(x=x, units=rng.choice(World.BADUNITS))
     if op == 'read':
         return op, dict(x=x, prop=rng.choice(PROPS))
     if op == 'reset_thermo':
